@@ -1,0 +1,19 @@
+//go:build verif
+
+// Contracts for package eth, checked by /verif (contract-based deductive
+// verification). Comments only.
+package eth
+
+//@ spec ishex(c byte) bool = (c >= '0' && c <= '9') || (c >= 'a' && c <= 'f') || (c >= 'A' && c <= 'F')
+//@ spec nib(c byte) uint64 = c <= '9' ? uint64(c - '0') : (c <= 'F' ? uint64(c - 'A') + 10 : uint64(c - 'a') + 10)
+//@ spec hexval(s string, i int) uint64 = i <= 0 ? 0 : (hexval(s, i-1) << 4) | nib(s[i-1])
+
+// C17: an error for any string containing a non-hex character; the exact
+// value for every valid spelling of a 64-bit quantity.
+//@ func decode props=C17
+//@   ensures [err-if-nonhex] result1 == nil ==> (forall k int :: 0 <= k && k < len(b) ==> ishex(b[k]))
+//@   ensures [value] result1 == nil ==> len(b) <= 16 && result0 == hexval(b, len(b))
+//@   ensures [total] (forall k int :: 0 <= k && k < len(b) ==> ishex(b[k])) && len(b) <= 16 ==> result1 == nil
+//@   loop#0 invariant 0 <= rangepos && rangepos <= len(b) && rangepos <= 15
+//@   loop#0 invariant forall k int :: 0 <= k && k < rangepos ==> ishex(b[k])
+//@   loop#0 invariant res == hexval(b, rangepos)
